@@ -124,16 +124,16 @@ pub fn check(c: &Case) -> CheckResult {
     let nonempty_src = cx1 < cx2 && cy1 < cy2;
     let mut region = 0;
     if nonempty_src {
-        let dx1 = (c.at[0] as i64 + (cx1 - x1) as i64).max(0);
-        let dy1 = (c.at[1] as i64 + (cy1 - y1) as i64).max(0);
-        let dx2 = (c.at[0] as i64 + (cx2 - x1) as i64).min(c.dw as i64);
-        let dy2 = (c.at[1] as i64 + (cy2 - y1) as i64).min(c.dh as i64);
+        let dx1 = (c.at[0] as i64 + (cx1 as i64 - x1 as i64)).max(0);
+        let dy1 = (c.at[1] as i64 + (cy1 as i64 - y1 as i64)).max(0);
+        let dx2 = (c.at[0] as i64 + (cx2 as i64 - x1 as i64)).min(c.dw as i64);
+        let dy2 = (c.at[1] as i64 + (cy2 as i64 - y1 as i64)).min(c.dh as i64);
         if dx1 < dx2 && dy1 < dy2 {
             region = (dx2 - dx1) * (dy2 - dy1);
         }
     }
-    let full = (x2 as i64 - x1 as i64).max(0) * (y2 as i64 - y1 as i64).max(0);
-    let partial = region > 0 && region < full;
+    let full = (x2 as i128 - x1 as i128).max(0) * (y2 as i128 - y1 as i128).max(0);
+    let partial = region > 0 && (region as i128) < full;
     o.nontrivial = region > 0 && ((x1, y1) != (0, 0) || partial);
     o.class_if(region > 0, "transfer-nonempty");
     o.class_if(region > 0 && (x1, y1) != (0, 0), "src-rect-origin-nonzero");
@@ -142,6 +142,7 @@ pub fn check(c: &Case) -> CheckResult {
     o.class_if(c.at[0] < 0 || c.at[1] < 0, "negative-dst");
     o.class_if(c.sw == 0 || c.sh == 0 || c.dw == 0 || c.dh == 0, "zero-sized-surface");
     o.class_if(c.kind == 1, "blend_surface");
+    o.class_if(region > 0 && ((x2 as i64 - x1 as i64) > i32::MAX as i64 / 2 || (y2 as i64 - y1 as i64) > i32::MAX as i64 / 2), "transfer-through-a-rect-spanning-billions");
     o.class_if(c.kind == 2, "blend_surface_with_alpha");
     o.class_if(c.xf.is_some() || c.clip.is_some() || c.layer, "state-to-ignore-set");
     let _ = moved;
@@ -201,6 +202,8 @@ fn wild() -> BoxedStrategy<i32> {
     prop_oneof![
         3 => -100i32..=100,
         1 => prop::sample::select(vec![-1_000_000i32, 1_000_000, -70_000, 70_000]),
+        // the extremes of the coordinate type (sums and differences of such values overflow i32)
+        1 => prop::sample::select(vec![i32::MAX, -i32::MAX, 2_000_000_000, -2_000_000_000, 1_500_000_000, -1_000_000_000, 999_999_999]),
     ]
     .boxed()
 }
@@ -221,9 +224,13 @@ fn axis(n: i32, d: i32) -> BoxedStrategy<(i32, i32, i32)> {
             (Just(x1), Just(x2), (-(c2 - c1) + 1)..=(d - 1)).prop_map(move |(x1, x2, t)| (x1, x2, t - (c1 - x1)))
         });
     prop_oneof![
-        8 => constructed,
-        1 => (-2..=n + 2, -2..=n + 2, -3..=d + 3),
-        1 => (wild(), wild(), wild()),
+        16 => constructed,
+        2 => (-2..=n + 2, -2..=n + 2, -3..=d + 3),
+        2 => (wild(), wild(), wild()),
+        // "the whole source, whatever its size": an interval ending at i32::MAX, or spanning billions, whose
+        // in-source part still lands on the destination
+        1 => (0..=d - 1).prop_map(|a| (0, i32::MAX, a)),
+        1 => (0..=d - 1).prop_map(|a| (-1_000_000_000, 1_500_000_000, a - 1_000_000_000)),
     ]
     .boxed()
 }
